@@ -30,3 +30,10 @@ CHECK = e1(
          "yields the 16-byte address; this is taken as conforming (it is the RFC 3596 name of the value returned).",
     design="DESIGN.md 2.1, 3 (C04)")
 CHECK["stages"][0]["gomaxprocs"] = 2
+
+CHECK["stages"] = CHECK["stages"] + [{"name": "race", "pkg": "./checks/c04/race", "race": True}]
+CHECK["assumptions"] = CHECK["assumptions"] + [
+    "stage race: 2-16 goroutines call the codec concurrently under the Go race detector and every result is compared "
+    "with the reference (free-running, not schedule-exhaustive: it decides data races, which are schedule-independent "
+    "for the happens-before detector, and catches wrong results only when they occur)",
+]
